@@ -45,6 +45,11 @@ CHECKS = {
          "For valid blocks at the tip of generated histories every edit of the transaction list or of a signed header field that is not re-signed by the stated creator must be refused; a block accepted under the original hash must carry the original ordered transaction list; a block re-signed by another key must have another hash; the unedited round-tripped block must be accepted.",
          "Edits of header fields outside the signature are classified, not asserted (the statement does not cover them). Edits that decode to a field-for-field identical block (zeroed merkle root recomputed from unchanged transactions) are discarded as no-ops.",
          "DESIGN.md §3 C06"),
+ "C07": ("exploration",
+         "differential property-based testing: generated production histories driven through the node's own pool entry and producer; every produced block is validated by the producer and by an independent second node (over the wire format), states compared",
+         "From genesis the node produces up to 25 blocks in a row through Mempool::add_transaction_if_validates / add_golden_ticket / bundle_block with generated pool content (payers, fees, routing paths ending at the producer), golden-ticket availability, timestamp offsets (1 ms..20 s), genesis period 4..100 (several window wraps), heartbeat 100/5000, staking on/off and genesis treasury (payout multiplier, 5% cap). Producer and validator must agree on every produced block and end in identical tip/utxoset on two independent nodes.",
+         "The producer is driven through Mempool::bundle_block exactly as ConsensusThread::produce_block does (golden ticket taken from the pool's ticket map); the timer-driven wrapper ConsensusThread::bundle_block is exercised in the net-world checks. Pool transactions of the producer's own key are not generated when staking is on (they would compete with the wallet's stake selection, a C14 matter).",
+         "DESIGN.md §3 C07"),
 }
 NOT_YET = {}
 
